@@ -42,6 +42,8 @@ def make_y(rng, shape, form):
     if form == 'int':
         return rng.integers(-3, 4, shape).astype(np.int64)
     y = rng.standard_normal(shape)
+    if form == 'complex':
+        return y + 1j * rng.standard_normal(shape)          # complex-valued observables (MANDy direct variants only)
     return np.asfortranarray(y) if form == 'fortran' else y
 
 
@@ -79,7 +81,8 @@ def mandy_case(draw):
         names[0] = 'one'
     return {'d': d, 'variant': variant, 'phi': names, 'm': draw(st.sampled_from([2, 3, 4, 6, 9, 12])), 'add_one': draw(st.booleans()),
             'duplicate': draw(st.sampled_from([False, False, True])), 'seed': draw(gen.SEED), 'ydim': draw(st.sampled_from(['d'])),
-            'data_form': draw(c15.DATA_FORM), 'y_form': draw(Y_FORM), 'tight_threshold': draw(st.sampled_from([False, False, True]))}
+            'data_form': draw(c15.DATA_FORM), 'y_form': draw(st.one_of(Y_FORM, st.sampled_from(['float', 'complex']))),
+            'tight_threshold': draw(st.sampled_from([False, False, True]))}
 
 
 def local_ratios(vals, m):
